@@ -353,6 +353,15 @@ pub fn g_contexts(base: &[Node]) -> Vec<Node> {
         // alternatives pinned to different offsets by `^` inside look-behinds: more than one match
         out.push(Alt(vec![Concat(vec![Assert(A::StartText), x.clone()]), Concat(vec![Look(b(Concat(vec![Assert(A::StartText), x.clone()])), true, false), Node::class("[ab]")])]));
         out.push(Alt(vec![Assert(A::StartText), Look(b(Concat(vec![Assert(A::StartText), x.clone()])), true, false)]));
+        // `\G` that may be skipped: the pattern does not start at the search position only
+        out.push(Concat(vec![Repeat(b(Concat(vec![ContG, x.clone()])), 0, Some(1), Mode::Greedy), lb()]));
+        out.push(Concat(vec![Repeat(b(ContG), 0, Some(1), Mode::Greedy), x.clone()]));
+        out.push(Concat(vec![Repeat(b(Node::group(Concat(vec![ContG, la()]))), 0, None, Mode::Greedy), x.clone()]));
+        // `\G` reached by stepping back: it holds at the search position only, not in front of it
+        out.push(Concat(vec![Look(b(Concat(vec![ContG, Any(false)])), true, false), x.clone()]));
+        out.push(Concat(vec![Look(b(Concat(vec![ContG, Any(false), Any(false)])), true, false), x.clone()]));
+        out.push(Concat(vec![Look(b(Concat(vec![ContG, Any(false)])), true, true), x.clone()]));
+        out.push(Alt(vec![Node::lit("aa"), Concat(vec![Look(b(Concat(vec![ContG, Any(false), Any(false)])), true, false), x.clone()])]));
     }
     out
 }
